@@ -41,6 +41,12 @@ P = {
          "Ties: S-cmp (compare model vs EnvSpec.compare on 1500/20000 spec pairs), S-tags, S-plat (exhaustive grid).",
          TB_PROOF + "; Model/Tags.v and Model/Platform.v are hand-written and tied by the S-cmp / S-tags / S-plat streams; nesting is stated for manylinux major 2, musllinux major 1, macOS (x86_64: 10.x with minor<=16 or >=11; arm64), Windows",
          "machine-checked proof in Coq over hand models on top of the regenerated algebra + correspondence", "5"),
+ "C18": ("proof", "C18_wheel: for ALL names (any name/version/build without '-', any non-empty tag lists without '-' and '.') parse_wheel_tags returns exactly the three tag lists; C18_ext/C18_parts: wrong extension or "
+         "dash count raises InvalidWheelFilename; C18_plat_rt_versioned: Platform.parse(str(p)) = p for manylinux/musllinux/macos with ANY X_Y and any architecture (decimal print/parse round trip from the stdlib lemmas), "
+         "C18_plat_rt_windows, C18_alias (the nine names). Ties: S-wheel (incl. random dash-joined near misses) and S-platparse (documented families with multi-digit versions, aliases, near-miss names); the direct oracle compares "
+         "tag sets with packaging.utils.parse_wheel_filename.",
+         "trusted: Coq kernel (closed under the global context); hand models Model/Tags.v (parse_wheel_tags) and Model/PlatParse.v (regex, Arch.parse, __str__) tied by correspondence; CPython re/str modelled for ASCII",
+         "machine-checked proof in Coq over hand models + correspondence", "5"),
  "C19": ("proof", "C19_and/or/inv/dispatch for ALL strings over Model/Generic.v (hand model of generic.py, tied by the exhaustive S-generic stream over 8 operators x a "
          "literal pool closed under the relations the case table inspects); Empty/Any membership is the regenerated special.py.",
          "trusted: Coq kernel (closed under the global context); the hand model is tied to generic.py only by the exhaustive correspondence stream; translator for special.py",
@@ -57,7 +63,6 @@ ORACLE_ONLY = {
  "C12": "only()/exclude()/without_extras(): leaked variables, implication, identity on environment grids",
  "C15": "normal-form checker on every result of parse/&/|/only/exclude",
  "C17": "parser acceptance vs packaging's SpecifierSet per ||-alternative; only InvalidSpecifier may be raised; from_specifierset never raises",
- "C18": "wheel tag sets vs packaging.utils.parse_wheel_filename; malformed names; platform aliases and Platform.parse(str(p)) == p",
 }
 checks = []
 for pid in sorted(set(P) | set(ORACLE_ONLY)):
